@@ -115,12 +115,19 @@ def use_target_value_lost(doc):
     for u, nd in enumerate(nodes):
         if nd["tag"] != "use" or nd.get("ref") not in byid:
             continue
-        t = byid[nd["ref"]]
-        sub = [t]
-        k = t + 1
-        while k < len(nodes) and nodes[k]["d"] > nodes[t]["d"]:
-            sub.append(k)
-            k += 1
+        # everything the instance is made of: the target's subtree, through chains of use
+        sub, todo, seen = [], [byid[nd["ref"]]], set()
+        while todo:
+            t = todo.pop()
+            if t in seen:
+                continue
+            seen.add(t)
+            k = t
+            while k < len(nodes) and (k == t or nodes[k]["d"] > nodes[t]["d"]):
+                sub.append(k)
+                if nodes[k]["tag"] == "use" and nodes[k].get("ref") in byid:
+                    todo.append(byid[nodes[k]["ref"]])
+                k += 1
         for x in sub:
             for a in DEFAULTS:
                 v = _spec(nodes[x]["at"], a)
